@@ -21,13 +21,16 @@ import (
 	"errors"
 	"fmt"
 	"io"
+	"log"
 	"math"
+	"net"
 	"os"
 	"os/exec"
 	"runtime/metrics"
 	"sort"
 	"strconv"
 	"strings"
+	"sync"
 	"syscall"
 	"time"
 	"unicode/utf8"
@@ -268,7 +271,18 @@ func (st *childState) decode(pkt []byte) (line string) {
 	format, err := st.p.Parse(h, pkt, &st.batch, &st.scratch)
 	a1 := heapAllocs()
 	cls := classify(format, err)
-	return fmt.Sprintf("OK\t%s\t%s\t%d\t%d\t%s\t%d", format, cls, perr, len(got), batchText(got), a1-a0)
+	// the same packet through a FRESH parser and batch object: whatever was decoded before through the reused
+	// batch must not change what this packet delivers
+	var fresh []metric
+	fh := receiver.CallbackHandler{Metrics: func(m *tlstatshouse.MetricBytes) { fresh = append(fresh, fromTL(m)) }}
+	var fb tlstatshouse.AddMetricsBatchBytes
+	var fs []byte
+	fformat, ferr := receiver.VerifC13NewParser().Parse(fh, pkt, &fb, &fs)
+	stale := "-"
+	if ft := batchText(fresh); fformat != format || classify(fformat, ferr) != cls || ft != batchText(got) {
+		stale = fmt.Sprintf("%s/%s/n=%d/%s", fformat, classify(fformat, ferr), len(fresh), ft)
+	}
+	return fmt.Sprintf("OK\t%s\t%s\t%d\t%d\t%s\t%d\t%s", format, cls, perr, len(got), batchText(got), a1-a0, stale)
 }
 
 func childMain() {
@@ -367,6 +381,7 @@ type result struct {
 	text   string // canonical metrics
 	alloc  int64
 	detail string
+	stale  string // "-" or what a fresh parser delivers for the same packet when that differs
 }
 
 type runner struct {
@@ -409,6 +424,7 @@ func (r *runner) decode(pkt []byte) result {
 	res.perr, _ = strconv.Atoi(f[3])
 	res.n, _ = strconv.Atoi(f[4])
 	res.alloc, _ = strconv.ParseInt(f[6], 10, 64)
+	res.stale = f[7]
 	return res
 }
 
@@ -428,6 +444,9 @@ func (r *runner) dec(pkt []byte, what string) result {
 			h.Obs("%s", res.format)
 		} else {
 			h.Obs("%s ret=%s perr=%d n=%d %s", res.format, res.cls, res.perr, res.n, res.text)
+		}
+		if res.stale != "-" {
+			h.Viol("stale-batch-state", "%s packet %s delivers n=%d %s through the reused batch object but %s through a fresh parser: state of an earlier packet leaks", res.format, trunc(verifx.Hex(pkt)), res.n, trunc(res.text), trunc(res.stale))
 		}
 		// amplification: no decoder may allocate more than a small multiple of the packet size (a 14 byte packet
 		// asking for gigabytes is how "fatal error: out of memory" happens on a machine with less memory than here)
@@ -1303,6 +1322,279 @@ func noise(r *verifx.Rng) []byte {
 	return b
 }
 
+// ------------------------------------------------------------------ TCP framing (receiver_tcp.go)
+
+func shortHex(b []byte) string {
+	if len(b) > 20 {
+		return fmt.Sprintf("#%d", len(b))
+	}
+	return verifx.Hex(b)
+}
+
+// canonical text with long strings abbreviated (frames are padded with 64 KiB tag values)
+func (m *metric) textShort() string {
+	c := *m
+	c.Name = nil
+	c.Tags = nil
+	t := c.text() // mask|-|-|counter|…
+	f := strings.SplitN(t, "|", 4)
+	tags := "-"
+	if len(m.Tags) != 0 {
+		ss := make([]string, len(m.Tags))
+		for i, kv := range m.Tags {
+			ss[i] = shortHex(kv[0]) + ":" + shortHex(kv[1])
+		}
+		tags = strings.Join(ss, ",")
+	}
+	return f[0] + "|" + shortHex(m.Name) + "|" + tags + "|" + f[3]
+}
+
+func batchTextShort(ms []metric) string {
+	if len(ms) == 0 {
+		return "-"
+	}
+	ss := make([]string, len(ms))
+	for i := range ms {
+		ss[i] = ms[i].textShort()
+	}
+	return strings.Join(ss, ";")
+}
+
+// run-length segments of a byte stream: hex, or *HHxN for N >= 32 copies of one byte
+func segments(b []byte) string {
+	var out []string
+	start := 0
+	flush := func(end int) {
+		if end > start {
+			out = append(out, verifx.Hex(b[start:end]))
+		}
+	}
+	for i := 0; i < len(b); {
+		j := i
+		for j < len(b) && b[j] == b[i] {
+			j++
+		}
+		if j-i >= 32 {
+			flush(i)
+			out = append(out, fmt.Sprintf("*%02xx%d", b[i], j-i))
+			start = j
+		}
+		i = j
+	}
+	flush(len(b))
+	if len(out) == 0 {
+		return "-"
+	}
+	return strings.Join(out, ",")
+}
+
+// a valid batch whose encoding is exactly `size` bytes (MessagePack or Protobuf: TL sizes are multiples of 4)
+func paddedBatch(r *verifx.Rng, size int) (body []byte, ms []metric, ok bool) {
+	m := metric{Name: []byte("tcp" + strconv.Itoa(r.Range(0, 99))), Mask: 1, Counter: math.Float64bits(float64(r.Range(1, 9)))}
+	usePB := r.Bool()
+	enc := func(pad int) []byte {
+		m.Tags = [][2][]byte{{[]byte("1"), bytes.Repeat([]byte{'a'}, pad)}}
+		if usePB {
+			return encPB([]metric{m})
+		}
+		return encMP([]metric{m}, &mpOpt{})
+	}
+	pad := size - len(enc(0))
+	for it := 0; it < 8 && pad >= 0; it++ {
+		b := enc(pad)
+		if len(b) == size {
+			return b, []metric{m}, true
+		}
+		pad += size - len(b)
+	}
+	return nil, nil, false
+}
+
+type tcpFrame struct {
+	body     []byte
+	ms       []metric // what it must deliver
+	oversize bool
+}
+
+var tcpHangs int
+
+func runTCPCase(h *verifx.H, r *verifx.Rng) {
+	const max = receiver.MaxTCPFrameBody
+	var frames []tcpFrame
+	small := func() tcpFrame {
+		ms := []metric{genMetric(r, true)}
+		if len(ms[0].Name) > 300 {
+			ms[0].Name = []byte("long")
+		}
+		switch r.Intn(3) {
+		case 0:
+			return tcpFrame{body: encTL(ms, 0), ms: ms}
+		case 1:
+			return tcpFrame{body: encMP(ms, &mpOpt{}), ms: ms}
+		default:
+			return tcpFrame{body: encPB(ms), ms: ms}
+		}
+	}
+	boundary := false
+	for k, n := 0, r.Range(2, 6); k < n; k++ {
+		switch r.Pick(4, 1, 1, 1, 4, 1) {
+		case 0:
+			frames = append(frames, small())
+		case 1:
+			frames = append(frames, tcpFrame{}) // body length 0: an empty packet
+		case 2:
+			frames = append(frames, tcpFrame{body: [][]byte{{0x80}, {0x00}, {0xff}, {'{'}}[r.Intn(4)]}) // 1 byte
+		case 3:
+			frames = append(frames, tcpFrame{body: r.Bytes(r.Range(2, 40))}) // garbage inside correct framing is harmless
+			frames[len(frames)-1].body[0] = 0xc1                              // (never a valid batch)
+		case 4: // the largest frames the protocol allows
+			size := max - r.Range(0, 3)
+			if r.Chance(1, 4) {
+				size = []int{max - 4, max - 7, 65536 - 4, 65536 - 5, 32768}[r.Intn(5)]
+			}
+			if body, ms, ok := paddedBatch(r, size); ok {
+				frames = append(frames, tcpFrame{body: body, ms: ms})
+				boundary = true
+			}
+		default:
+			frames = append(frames, tcpFrame{oversize: true})
+		}
+	}
+	if r.Chance(2, 3) {
+		frames = append(frames, small()) // something after the big / oversize frame
+	}
+	var stream []byte
+	var cuts []int // interesting places to split the writes
+	var want []metric
+	dead := false
+	for _, f := range frames {
+		n := len(f.body)
+		if f.oversize {
+			n = max + 1 + []int{0, 1, 1000, 1 << 20, math.MaxUint32 - max - 1}[r.Intn(5)]
+		}
+		cuts = append(cuts, len(stream)+r.Range(1, 3), len(stream)+4)
+		stream = append(stream, byte(n), byte(n>>8), byte(n>>16), byte(n>>24))
+		if f.oversize {
+			stream = append(stream, r.Bytes(r.Range(0, 64))...)
+			dead = true
+			continue
+		}
+		stream = append(stream, f.body...)
+		cuts = append(cuts, len(stream)-1)
+		if !dead {
+			want = append(want, f.ms...)
+		}
+	}
+	if r.Chance(1, 4) { // a truncated last frame is dropped at EOF
+		k := r.Range(1, 6)
+		stream = append(stream, byte(100), 0, 0, 0)
+		stream = append(stream, r.Bytes(k)...)
+	}
+	// write chunks: everything at once / at the interesting boundaries / small random pieces
+	var sizes []int
+	switch r.Intn(3) {
+	case 0:
+		sizes = []int{len(stream)}
+	case 1:
+		sort.Ints(cuts)
+		prev := 0
+		for _, c := range cuts {
+			if c > prev && c < len(stream) && r.Chance(2, 3) {
+				sizes = append(sizes, c-prev)
+				prev = c
+			}
+		}
+		sizes = append(sizes, len(stream)-prev)
+	default:
+		for left := len(stream); left > 0; {
+			k := r.Range(1, 7)
+			if r.Bool() {
+				k = r.Range(1, 70000)
+			}
+			if k > left {
+				k = left
+			}
+			sizes = append(sizes, k)
+			left -= k
+		}
+	}
+	h.Op("tcp %s %s", verifx.List(sizes), segments(stream))
+	h.Stat("tcp.frames", int64(len(frames)))
+	h.Stat("tcp.chunks", int64(len(sizes)))
+
+	// ---- the real receiver over loopback TCP
+	var mu sync.Mutex
+	var got []metric
+	perr := 0
+	handler := receiver.CallbackHandler{
+		Metrics:    func(m *tlstatshouse.MetricBytes) { mu.Lock(); got = append(got, fromTL(m)); mu.Unlock() },
+		ParseError: func(_ []byte, _ error) { mu.Lock(); perr++; mu.Unlock() },
+	}
+	ln, err := net.Listen("tcp", "127.0.0.1:0")
+	if err != nil {
+		h.Obs("tcp listen-failed")
+		h.Note("cannot listen on loopback: %v", err)
+		return
+	}
+	srv := receiver.NewTCPReceiver(nil, nil)
+	go func() { _ = srv.Serve(nil, handler, ln) }()
+	conn, err := net.Dial("tcp", ln.Addr().String())
+	if err != nil {
+		_ = srv.Close()
+		h.Obs("tcp dial-failed")
+		return
+	}
+	deadline := time.Now().Add(15 * time.Second) // normally milliseconds
+	_ = conn.SetDeadline(deadline)
+	_, _ = conn.Write([]byte{receiver.TCPMagicV1Default})
+	rest := stream
+	for _, k := range sizes {
+		if _, err := conn.Write(rest[:k]); err != nil {
+			break // the receiver closed the connection (framing error): the rest is lost, as it should be
+		}
+		rest = rest[k:]
+	}
+	if tc, ok := conn.(*net.TCPConn); ok {
+		_ = tc.CloseWrite()
+	}
+	// the receiver closes the connection when its loop ends (EOF or framing error); until then we read nothing
+	hang := false
+	var one [1]byte
+	for {
+		_, err := conn.Read(one[:])
+		if err == nil {
+			continue
+		}
+		if ne, ok := err.(net.Error); ok && ne.Timeout() {
+			hang = true
+		}
+		break
+	}
+	_ = conn.Close()
+	_ = srv.Close()
+	mu.Lock()
+	defer mu.Unlock()
+	end := "closed"
+	if hang {
+		end = "hang"
+	}
+	h.Obs("tcp end=%s perr=%d n=%d %s", end, perr, len(got), batchTextShort(got))
+	if hang {
+		tcpHangs++
+		h.Viol("tcp-hang", "connection still open 15 s after the client finished writing %d bytes in %d frames and half-closed: receiveLoop does not make progress (delivered %d of %d metrics)", len(stream), len(frames), len(got), len(want))
+	}
+	if semText(got) != semText(want) {
+		sig := "tcp-frame-lost"
+		if len(got) > len(want) {
+			sig = "tcp-frame-extra"
+		}
+		h.Viol(sig, "metrics delivered over the connection differ from the metrics of its valid frames (in order, up to the first oversize frame): want %d got %d: want %s got %s", len(want), len(got), trunc(batchTextShort(want)), trunc(batchTextShort(got)))
+	}
+	if boundary {
+		h.NonTrivial("tcp-max-frame")
+	}
+}
+
 // ------------------------------------------------------------------ cases
 
 func expectSame(h *verifx.H, what string, wantFmt string, want []metric, res result) {
@@ -1386,6 +1678,11 @@ func main() {
 		childMain()
 		return
 	}
+	if h.Mode == "gen" {
+		fmt.Printf("-- generated by verif-c13 -mode=gen from the working tree (constants as the compiler sees them)\nnamespace SH.Gen.C13\ndef maxTCPFrameBody : Nat := %d\nend SH.Gen.C13\n", receiver.MaxTCPFrameBody)
+		return
+	}
+	log.SetOutput(io.Discard) // the receiver logs every framing error
 	run := &runner{h: h}
 	h.Cases(func(i int, r *verifx.Rng) {
 		if run.crashes >= 12 && h.Only < 0 {
@@ -1395,11 +1692,20 @@ func main() {
 			return
 		}
 		run.reset()
-		kind := r.Pick(6, 2, 2)
+		kind := r.Pick(12, 4, 4, 1)
 		if h.Mode == "noise" {
 			kind = 2
 		}
+		if h.Mode == "tcp" {
+			kind = 3
+		}
 		switch kind {
+		case 3:
+			if tcpHangs >= 2 && h.Only < 0 {
+				h.Stat("case.tcp-skipped-after-2-hangs", 1) // each hang costs the full deadline; two replays are enough
+				return
+			}
+			runTCPCase(h, r)
 		case 0: // one batch in every format
 			finite := r.Chance(2, 3)
 			nm := []int{0, 1, 2, 3, 4, 16}[r.Pick(1, 6, 4, 2, 1, 1)]
@@ -1476,6 +1782,19 @@ func main() {
 				two := append(append([]metric(nil), ms...), ms...)
 				expectSame(h, "tl-concat", "tl", two, run.dec(append(append([]byte(nil), tlb...), tlb...), "tl-concat"))
 				expectSame(h, "msgpack-concat", "msgpack", two, run.dec(append(append([]byte(nil), mpb...), mpb...), "msgpack-concat"))
+			}
+			// packets that carry no metrics, decoded right after non-empty ones through the same batch object:
+			// nothing of the previous batch may be delivered again
+			empties := [][]byte{{0x80}, {0x81, 0xa1, 'x', 0xc0}, {0x81, 0xa7, 'm', 'e', 't', 'r', 'i', 'c', 's', 0x90}, {0x82, 0xa1, 'a', 0x01, 0xa1, 'b', 0x90},
+				{0x08, 0x01}, {0x12, 0x00}, encTL(nil, 0), []byte("{}"), []byte(`{"metrics":[]}`)}
+			for k := 0; k < 3; k++ {
+				e := empties[r.Intn(len(empties))]
+				if res := run.dec(e, "empty-after"); res.status == "ok" && res.n != 0 {
+					h.Viol("stale-batch-state", "packet %s carries no metrics but %d were delivered: %s", verifx.Hex(e), res.n, trunc(res.text))
+				}
+				if k == 0 && nm > 0 { // and a non-empty one again, so that the next empty one follows data
+					run.dec([][]byte{tlb, mpb, pbb}[r.Intn(3)], "refill")
+				}
 			}
 			nfields := 0
 			for k := range ms {
